@@ -258,8 +258,9 @@ structure TA where
   ksMeta : List (Nat × Option Nat) := []
 deriving Repr
 
-def TA.new (p : Pol) (shuffle nonlocal partSet : Bool) : TA :=
-  { pol := p, shuffle := shuffle, nonlocal := nonlocal, partSet := partSet, hosts := [], replicas := [] }
+/-- a new policy; `sess` = the session keyspace (`Init`: `getKeyspaceName`), none = a keyspace no query names -/
+def TA.new (p : Pol) (shuffle nonlocal partSet : Bool) (sess : Option Nat := none) : TA :=
+  { pol := p, shuffle := shuffle, nonlocal := nonlocal, partSet := partSet, hosts := [], replicas := [], sessKs := sess }
 
 /-- `updateReplicas(meta, ks)`: the table of `ks` is recomputed from the CURRENT token ring if the keyspace
 has a usable strategy (and a ring exists), dropped otherwise; the tables of the other keyspaces are kept. -/
